@@ -121,8 +121,64 @@ def check(repo, names, workdir):
     return {n: allres.get(n, 'not translated') for n in names}
 
 
+def linked_check(repo, workdir):
+    """-> status of the fully linked regenerated decoder and the theorems transported to it"""
+    try:
+        defs, ties, fails = build.translate_all(repo)
+        text = build.linked_text(defs)
+    except Exception as e:
+        return {'status': 'translator: internal error %s' % repr(e)[:160]}
+    if text is None:
+        return {'status': 'not available: a decoder function could not be translated'}
+    sup = os.path.join(lib.COQ, 'theories', 'Proofs', 'GenSupport.vo')
+    stamp = str(os.path.getmtime(sup)) if os.path.exists(sup) else '0'
+    key = hashlib.sha1((text + stamp).encode()).hexdigest()[:20]
+    cdir = os.path.join(lib.CACHE, 'srctie')
+    os.makedirs(cdir, exist_ok=True)
+    cp = os.path.join(cdir, 'linked-' + key + '.json')
+    if os.path.exists(cp):
+        return json.load(open(cp))
+    os.makedirs(workdir, exist_ok=True)
+    p = os.path.join(workdir, 'Linked.v')
+    open(p, 'w').write(text)
+    transient = ('inconsistent assumptions', 'Compiled library', 'Cannot load', 'bad version', 'No such file', 'Cannot find a physical path')
+    def once():
+        pr = _coqc(p, workdir)
+        try:
+            out, _ = pr.communicate(timeout=1200)
+        except subprocess.TimeoutExpired:
+            pr.kill()
+            out = 'timeout'
+        return pr, out
+    pr, out = once()
+    if pr.returncode != 0 and any(x in out for x in transient):
+        with lib.Lock('coq'):
+            pr, out = once()
+    closed = out.count('Closed under the global context')
+    if pr.returncode == 0:
+        res = {'status': 'holds', 'closed_under_global_context': closed,
+               'theorems': ['regenerated_decoder_is_model : forall o b, run (genL_msg_read o) b = m_decode o b',
+                            'regenerated_avps_is_model', 'G_C01_total', 'G_C02_no_contract_violation', 'G_C05_refines_spec'],
+               'meaning': 'the decoder regenerated from the current source text, with every callee regenerated too, equals the Model '
+                          'decoder on every input; C01/C02/C05 are re-proved of the regenerated program'}
+        json.dump(res, open(cp, 'w'))
+    elif any(x in out for x in transient) or out == 'timeout':
+        res = {'status': 'not checked (coqc could not run)'}
+    else:
+        res = {'status': 'does not hold for the current source', 'coqc': ' '.join(out.split())[-300:]}
+        json.dump(res, open(cp, 'w'))
+    for f in os.listdir(workdir):
+        if f.startswith(('Linked.', '.Linked')):
+            try:
+                os.remove(os.path.join(workdir, f))
+            except OSError:
+                pass
+    return res
+
+
 if __name__ == '__main__':
     import time
     t0 = time.time()
     r = check(sys.argv[1] if len(sys.argv) > 1 else lib.REPO, ALL, os.path.join(lib.CACHE, 'work', 'srctie2-%d' % os.getpid()))
     print(json.dumps(r, indent=1), round(time.time() - t0, 1))
+    print(json.dumps(linked_check(sys.argv[1] if len(sys.argv) > 1 else lib.REPO, os.path.join(lib.CACHE, 'work', 'linked-%d' % os.getpid())), indent=1), round(time.time() - t0, 1))
